@@ -84,6 +84,19 @@ class Env:
         self.loop_started = False
         self.scope_tasks = {}
 
+    def digest(self):
+        """fields of the static objects at the end of the run (compared with the model's state)"""
+        d = [95]
+        d += [1 if f._value else 0 for f in self.flags]
+        d += [t.value for t in self.tracked]
+        for l in self.locks:
+            d += [0 if l._owner is None else 1, l._depth, len(l._notification._waiting)]
+        for q in self.queues:
+            d += [len(q._buffer), 1 if q._closed else 0, len(q._notification._waiting)] + list(q._buffer)
+        for c in self.chans:
+            d += [len(c._consumer_buffers), 1 if c._closed else 0]
+        return d
+
     # ---- events
     def now(self):
         return self.usim.time.now
@@ -608,7 +621,7 @@ def run_scenario(sc, budget=4000, wall=10, probes=None):
     if probes is not None:
         probes.append(('run_end', tcode(info['last_time']), err))
     env.finished = True
-    trace = env.trace + [[tcode(info['last_time'])] + final]
+    trace = env.trace + [[tcode(info['last_time'])] + final, [tcode(info['last_time'])] + env.digest()]
     info['final'] = final
     info['error'] = repr(err) if err is not None else None
     info['exc'] = err
